@@ -5,6 +5,7 @@
     and its three text forms.
 (b) second counts: dense around the epoch, day boundaries, 2^31, extremes; oracle: M's epoch.
 """
+import os
 from fractions import Fraction
 
 from isomc import impl, pools, alphabets as A, refmodel as M
@@ -35,7 +36,14 @@ def units(tier):
         us.append(("pool", rep))
     us.append(("local",))
     us.append(("dst_flip",))
+    us.append(("real_zones",))
     return us
+
+
+NEGATIVE_DST_ZONES = ["IST-1GMT0,M10.5.0,M3.5.0/1"]
+REAL_ZONES = ["UTC0", "XXX-5:30", "XXX+5:30", "XXX-0:30", "XXX+0:30", "XXX-14", "XXX+12", "XXX-5:45", "XXX+3:30", "XXX-12:45",
+              "XXX+9:01", "EST5EDT,M3.2.0,M11.1.0", "CET-1CEST,M3.5.0,M10.5.0/3", "AEST-10AEDT,M10.1.0,M4.1.0/3",
+              "NZST-12NZDT,M9.5.0,M4.1.0/3", "LHST-10:30LHDT-11,M10.1.0,M4.1.0", "NST3:30NDT,M3.2.0,M11.1.0"] + NEGATIVE_DST_ZONES
 
 
 def want_split(offset_minutes):
@@ -200,6 +208,41 @@ def run_unit(unit, ctx):
                     ctx.state_count += 1
                     check_env(ctx, -tz_o * 60, -alt_o * 60, 1, isdst)
                 check_env(ctx, -tz_o * 60, -alt_o * 60, 0, 1)
+    elif u == "real_zones":
+        # the real time module of a fresh process under POSIX TZ strings (no zone database needed): what the library
+        # reports against the offset the operating system itself reports for the current moment (tm_gmtoff). The
+        # alphabet only holds zones for which the answer does not depend on today's date being inside or outside DST
+        # (both seasons are checked by the seam units above): fixed offsets; ordinary northern and southern DST rules;
+        # a half-hour DST step; and a zone whose *standard* time is the summer one (negative DST, as Europe/Dublin)
+        import subprocess
+        import sys
+        import json as _json
+        prog = ("import time, json\n"
+                "from metomi.isodatetime import timezone as T\n"
+                "lt = time.localtime()\n"
+                "print(json.dumps({'lib': list(T.get_local_time_zone()), 'texts': [T.get_local_time_zone_format(), "
+                "T.get_local_time_zone_format(T.TimeZoneFormatMode.extended), "
+                "T.get_local_time_zone_format(T.TimeZoneFormatMode.reduced)], 'gmtoff': lt.tm_gmtoff, 'isdst': lt.tm_isdst}))\n")
+        for tz in REAL_ZONES:
+            env = dict(os.environ, TZ=tz, PYTHONPATH=os.environ.get("VERIF_REPO", "/repo"), PYTHONHASHSEED="0",
+                       PYTHONDONTWRITEBYTECODE="1")
+            ctx.transitions += 1
+            ctx.state_count += 1
+            pr = subprocess.run([sys.executable, "-c", prog], capture_output=True, text=True, env=env, timeout=60)
+            if pr.returncode != 0:
+                raise RuntimeError("real-zone probe failed under TZ=%s: %s" % (tz, pr.stderr[-300:]))
+            got = _json.loads(pr.stdout)
+            ctx.traces += 1
+            if got["gmtoff"] % 60:
+                continue
+            o = got["gmtoff"] // 60
+            case = {"kind": "real_zone", "TZ": tz}
+            sig = {"real_time_module": True, "negative_dst": tz in NEGATIVE_DST_ZONES}
+            if tuple(got["lib"]) != want_split(o):
+                ctx.violation("offset_split", sig, case, {"tm_gmtoff_minutes": o, "pair": list(want_split(o))}, got)
+            elif tuple(got["texts"]) != want_texts(o):
+                ctx.violation("offset_text", sig, case, list(want_texts(o)), got)
+            ctx.outcome("real_zone_isdst", got["isdst"])
     elif u == "local":
         from metomi.isodatetime.parsers import TimePointParser
         p0 = impl.build_point({"rep": "cal", "f": [2000, 1, 1], "t": ["hms", 0, 0, 0], "tz": [0, 0]})
@@ -226,6 +269,8 @@ def replay_case(case, ctx):
         check_count(ctx, case["n"], seams=(0, 345, -330, 60))
     elif k == "pool":
         run_unit(("pool", case["p"]["rep"]), ctx)
+    elif k == "real_zone":
+        run_unit(("real_zones",), ctx)
     else:
         run_unit(("local",), ctx)
 
